@@ -593,12 +593,12 @@ fn run_ops(cs: u64, ops: &[Op], policy: Policy) -> (Option<Outcome>, RunStats) {
 }
 
 /// all violation signatures of one execution
-fn sigs_of(res: &Option<Outcome>, stats: &RunStats) -> Vec<(String, String)> {
-    let mut v: Vec<(String, String)> = Vec::new();
+fn sigs_of(res: &Option<Outcome>, stats: &RunStats) -> Vec<(String, String, usize)> {
+    let mut v: Vec<(String, String, usize)> = Vec::new();
     let panics = dds_panics(stats);
     let op = res.as_ref().and_then(|o| o.panic_op.clone()).unwrap_or_else(|| "idle".into());
     for p in &panics {
-        v.push((panic_sig(p, &op), format!("DDS {:?} task panicked at {} during {}: {}", p.task, p.location, op, p.msg)));
+        v.push((panic_sig(p, &op), format!("DDS {:?} task panicked at {} during {}: {}", p.task, p.location, op, p.msg), res.as_ref().and_then(|o| o.aborted_at).unwrap_or(usize::MAX)));
     }
     if let Some(o) = res {
         for f in &o.findings {
@@ -606,7 +606,7 @@ fn sigs_of(res: &Option<Outcome>, stats: &RunStats) -> Vec<(String, String)> {
             if f.sig.starts_with("hang|") && !panics.is_empty() {
                 continue;
             }
-            v.push((f.sig.clone(), f.what.clone()));
+            v.push((f.sig.clone(), f.what.clone(), f.step));
         }
     }
     v
@@ -624,7 +624,7 @@ fn shrink(cs: u64, policy: Policy, ops: &[Op], sig: &str) -> Vec<Op> {
     let mut budget = (4_000_000 / calls.max(1)).clamp(40, 150);
     let test = |cand: &[Op]| -> bool {
         let (r, s) = run_ops(cs, cand, policy);
-        sigs_of(&r, &s).iter().any(|(x, _)| x == sig)
+        sigs_of(&r, &s).iter().any(|(x, _, _)| x == sig)
     };
     // cheap first attempt: only the creations / churns of a single kind
     let mut start = ops.to_vec();
@@ -646,13 +646,13 @@ fn shrink(cs: u64, policy: Policy, ops: &[Op], sig: &str) -> Vec<Op> {
             // the counter widths are the natural guesses
             for guess in [256u32, 65_536] {
                 if guess < hi && guess > lo && budget >= 2 {
-                    let mut run = |k: u32| {
+                    let run = |k: u32| {
                         let mut cand = cur.clone();
                         if let Op::Churn { n, .. } = &mut cand[i] {
                             *n = k;
                         }
                         let (r, s) = run_ops(cs, &cand, policy);
-                        sigs_of(&r, &s).iter().any(|(x, _)| x == sig)
+                        sigs_of(&r, &s).iter().any(|(x, _, _)| x == sig)
                     };
                     budget -= 1;
                     if run(guess) {
@@ -674,7 +674,7 @@ fn shrink(cs: u64, policy: Policy, ops: &[Op], sig: &str) -> Vec<Op> {
                 }
                 budget -= 1;
                 let (r, s) = run_ops(cs, &cand, policy);
-                if sigs_of(&r, &s).iter().any(|(x, _)| x == sig) {
+                if sigs_of(&r, &s).iter().any(|(x, _, _)| x == sig) {
                     hi = mid;
                 } else {
                     lo = mid;
@@ -754,7 +754,7 @@ pub fn run(shard: &Shard) -> Report {
             }
         }
         let mut done: Vec<String> = Vec::new();
-        for (sig, what) in &found {
+        for (sig, what, at_step) in &found {
             if done.contains(sig) {
                 continue;
             }
@@ -763,7 +763,8 @@ pub fn run(shard: &Shard) -> Report {
             let mut r = replay.clone().set("violation", sig.clone());
             let mut what = what.clone();
             if seen < 1 || shard.replay.is_some() {
-                let min = shrink(cs, policy, &ops, sig);
+                let cut = (*at_step).min(ops.len() - 1);
+                let min = shrink(cs, policy, &ops[..=cut], sig);
                 what = format!("{what}; minimal history ({} ops): {}", min.len(), clip(summarize(&min).to_string(), 400));
                 r = r.set("minimal_history", summarize(&min));
             }
